@@ -15,9 +15,6 @@ def msgId : Msg → String
 
 def whyId : Why → String
   | .universalBackslash => "universal_backslash"
-  | .lineComment => "line_comment"
-  | .stringBackslash => "string_backslash"
-  | .charBackslash => "char_backslash"
 
 def render : Outcome → String
   | .ok n => s!"ok tokens={n}"
